@@ -433,9 +433,16 @@ impl CheckImpl for C12 {
             let idx = unit * BATCH + i;
             let case = generate(seed, idx, tier == Tier::Thorough);
             announce(unit, &|| json!({"unit": unit, "replay": case.to_json()}).to_string());
+            let live0 = crate::alloc::LIVE.load(std::sync::atomic::Ordering::Relaxed);
             let o = execute(&case);
             acc.evaluations += 1;
             let name = case.name();
+            if std::env::var("SIM_TRACE_LEAKS").is_ok() {
+                let d = crate::alloc::LIVE.load(std::sync::atomic::Ordering::Relaxed) - live0;
+                if d > 100_000 {
+                    eprintln!("live +{d} bytes after {name} on {}", case.backend);
+                }
+            }
             if !o.admissible {
                 acc.bump(&format!("inadmissible.{name}"));
                 continue;
@@ -550,4 +557,10 @@ pub fn sweep(backend_name: &str, op: &str, count: u64) {
             shape.k_in, shape.k_key, shape.k_res, shape.dsize
         );
     }
+}
+
+/// Debug aid: prints the allocator's live-byte counter (see alloc.rs) - used with `ps` to tell a leak
+/// from allocator fragmentation.
+pub fn live_bytes() -> isize {
+    crate::alloc::LIVE.load(std::sync::atomic::Ordering::Relaxed)
 }
